@@ -438,7 +438,7 @@ class Emitter:
             self.fire('E14_contract')
         out.extend(lines)
         nl = len(self.spec.get('loops', {}))
-        if nl and nl != self.loopn:
+        if nl and nl != self.loopn and self.spec.get('require_loop_contracts', True):
             raise ExtractionError('%s: spec has %d loop contracts, extracted text has %d loops'
                                   % (self.cname, nl, self.loopn))
         return sig, '\n'.join(out) + '\n'
